@@ -32,7 +32,7 @@ def floors(tier):
     for fam in FAMILIES:
         f["family:" + fam] = 100
     f.update({"arguments:checked_unchanged": 5000, "fid:mixed_mixed_branch": 300, "ptrace:entangled_cases": 300, "fid:value_lt_0.99": 500,
-              "metric_rep:pairs": 100})
+              "metric_rep:pairs": 100, "metric_rep:evaluations_on_reused_objects": 400})
     return f
 
 
@@ -294,25 +294,34 @@ def check_metric_rep(desc, c, ctx):
             return QuantumState(gq.ptab_to_clifford(t, rng), rep_type="s")
         return QuantumState(dense.projector_of_group(t), rep_type="dm")
 
-    for tr, sr in (("s", "s"), ("dm", "dm"), ("dm", "s"), ("s", "dm")):
-        if tr == "s" and sr == "dm":
-            continue  # converting a density matrix to a stabilizer is not one of the representation pairs C17 names
-        ok, v = _call(ctx, desc, f"Infidelity.evaluate[{tr},{sr}]", lambda: Infidelity(mk(t1, tr)).evaluate(mk(t2, sr), None))
+    # the caller's objects are made once and used for every evaluation, as a long-lived target / state is: an evaluation must
+    # not leave them in a condition that changes a later value.  (s target, dm state) is not evaluated: converting a density
+    # matrix into a stabilizer is not one of the representation pairs C17 names.
+    objs = {("t", "s"): mk(t1, "s"), ("t", "dm"): mk(t1, "dm"), ("x", "s"): mk(t2, "s"), ("x", "dm"): mk(t2, "dm")}
+    order = [("dm", "s"), ("s", "s"), ("dm", "dm"), ("dm", "s"), ("s", "s")]
+    if rng.random() < 0.5:
+        order = [("s", "s"), ("dm", "dm"), ("dm", "s"), ("s", "s")]
+    seen = {}
+    for tr, sr in order:
+        name = f"{tr},{sr}" + ("" if (tr, sr) not in seen else "#2")
+        seen[(tr, sr)] = True
+        ok, v = _call(ctx, desc, f"Infidelity.evaluate[{tr},{sr}]", lambda: Infidelity(objs[("t", tr)]).evaluate(objs[("x", sr)], None))
         if ok:
-            vals[f"{tr},{sr}"] = float(np.real(v))
+            vals[name] = float(np.real(v))
+            ctx.count("metric_rep:evaluations_on_reused_objects")
     ctx.count("metric_rep:pairs")
-    det = {"n": n, "values": vals, "reference": ref}
+    det = {"n": n, "values": vals, "reference": ref, "order": [f"{a},{b}" for a, b in order]}
     bad = [k for k, v in vals.items() if abs(v - ref) > TOL * 10]
     if bad:
         key = "infid_rep:" + bad[0]
-        # mechanism of the known finding: only the evaluation that converts a stabilizer state into a density matrix is
+        # mechanism of the known finding: only the evaluations that convert a stabilizer state into a density matrix are
         # off, the state has a negative generator sign, and the value is the infidelity with the sign-stripped state
-        if bad == ["dm,s"]:
+        if set(bad) <= {"dm,s", "dm,s#2"}:
             x, z, r, _ = t2.to_graphiq()
             if r.any():
                 stripped = pauli.PTab.from_graphiq(x, z, 0 * r)
                 bug = 1 - float(np.real(np.trace(c["rho"] @ dense.projector_of_group(stripped))))
-                if abs(vals["dm,s"] - bug) < TOL * 10:
+                if all(abs(vals[b] - bug) < TOL * 10 for b in bad):
                     key = "stab-to-density-ignores-signs"
         ctx.violation("infidelity_representation_mismatch", desc, det, key=key)
     ok, v = _call(ctx, desc, "TraceDistance.evaluate", lambda: TraceDistance(mk(t1, "dm")).evaluate(mk(t2, "dm"), None))
